@@ -1863,7 +1863,9 @@ class Wtp:
                         parts.append(too_deep_error("template argument"))
                         continue
                     self.expand_stack.append("ARGVAL-NO-TEMPLATE")
-                    t = expand_args(ch, {})
+                    # (calls inside the default of a page-level argument
+                    # reference are expanded like any other call)
+                    t = expand_recurse(expand_args(ch, {}), parent, expand_all)
                     self.expand_stack.pop()
                     parts.append(t)
                     continue
